@@ -8,8 +8,9 @@ import TpmProofs.Props.C02
 
 For every layout of /repo, every command code and flag, streams included, and EVERY input: a warn-mode decode ends with a
 result (possibly with surplus), with `depleted`, with one of the two value errors after which the layout is unknowable
-(a command code without layouts, a selector without union member), or with an internal error (C06: only the known
-assert) — never with a size error: every overrun, shortfall and anticipation is delivered as a warning
+(a command code without layouts, a selector without union member), or with an internal error (a `.crash` outcome: the
+absence of internal errors is a theorem for strict mode only — C06 — and for warn mode it is monitored on the real code and
+tied by correspondence, not proved) — never with a size error: every overrun, shortfall and anticipation is delivered as a warning
 (`TpmProofs/Warn.lean`: each region's owner catches the overrun of its own region; what was opened inside an overrun
 region ends with it; `assert_done` pads and goes on).
 -/
